@@ -544,7 +544,12 @@ pub fn stack_family() -> Vec<StackD> {
     c0.offset = 0;
     let mut e30 = pat_e(v, 400, true);
     e30.offset += 30;
-    f.push(StackD { name: "HVH rails+flip offset 0 / asymmetric+flip offset+30 / gap-sig-gap", prim: (200, 300), layers: vec![c0, e30, pat_b(h, 600)], vias });
+    f.push(StackD { name: "HVH rails+flip offset 0 / asymmetric+flip offset+30 / gap-sig-gap", prim: (200, 300), layers: vec![c0, e30, pat_b(h, 600)], vias: vias.clone() });
+    // an odd number of signals per period, not symmetric about the period centre, flipping: the middle track keeps
+    // its index but not its place in odd periods
+    let g3 = LayerD { horiz: h, spec: vec![e(Gap, 50), SpecD::Rep(vec![en(Sig, 100), en(Gap, 60)], 3), e(Gap, 70)], offset: 0, overlap: 0, cutsize: 40, flip: true };
+    let g3v = LayerD { horiz: v, spec: vec![e(Gap, 30), e(Sig, 60), e(Gap, 40), e(Sig, 80), e(Gap, 50), e(Sig, 60), e(Gap, 80)], offset: 0, overlap: 0, cutsize: 40, flip: true };
+    f.push(StackD { name: "HVH three signals asymmetric+flip / three signals asymmetric+flip / gap-sig-gap", prim: (200, 300), layers: vec![g3, g3v, pat_b(h, 600)], vias });
     f
 }
 
